@@ -30,6 +30,10 @@ class _ShMeta(type):
     def __instancecheck__(cls, obj):
         return sh_isinstance(obj, cls)
 
+    def __getattr__(cls, name):
+        # unbound use of the real type's methods, e.g. str.__repr__(x), bytes.fromhex(...)
+        return getattr(cls._real, name)
+
     def __subclasscheck__(cls, sub):
         return sub is cls or issubclass(sub, cls._real)
 
@@ -76,6 +80,21 @@ class ShBool(metaclass=_ShMeta):
         return bool(x)
 
 
+class ShStr(metaclass=_ShMeta):
+    _real = str
+    __name__ = "str"
+
+    def __new__(cls, *a, **k):
+        if a and _isinstance(a[0], SymStr) and len(a) == 1:
+            return a[0]
+        if a and _isinstance(a[0], (SymBytes, ShByteArray)) and len(a) >= 2:
+            return a[0].decode(*a[1:], **k)
+        return str(*a, **k)
+
+    join = staticmethod(lambda sep, seq: str_join(sep, seq))
+    maketrans = staticmethod(str.maketrans)
+
+
 class ShBytes(metaclass=_ShMeta):
     _real = bytes
     __name__ = "bytes"
@@ -114,7 +133,10 @@ class _ShBAMeta(type):
         return _isinstance(obj, bytearray) or type.__instancecheck__(cls, obj)
 
 
+from .strings import SymStr, sym_format, str_join
+
 _SYMCLASS = {
+    SymStr: (str,),
     SymInt: (int,),
     SymBool: (bool, int),
     SymBytes: (bytes,),
@@ -219,6 +241,8 @@ def symx_fmt(fmt, args):
     tup = args if _isinstance(args, tuple) else (args,)
     if _isinstance(args, dict) or not any(_type(a) in _SYMCLASS for a in tup):
         return fmt % args
+    if any(_isinstance(a, SymStr) for a in tup):
+        return sym_format(fmt, args)
     specs = list(_re.finditer(r"%(?:\([^)]*\))?[-#0 +]*(?:\*|\d+)?(?:\.(?:\*|\d+))?[hlL]?([a-zA-Z%])", fmt))
     specs = [m for m in specs if m.group(1) != "%"]
     if len(specs) != len(tup):
@@ -231,7 +255,26 @@ def symx_fmt(fmt, args):
     return out % tup
 
 
+def symx_mod(l, r):
+    """every `%` whose left operand is not a literal: text formatting with symbolic arguments is modelled"""
+    if _isinstance(l, str) and not _isinstance(r, dict):
+        tup = r if _isinstance(r, tuple) else (r,)
+        if any(_isinstance(a, SymStr) for a in tup):
+            return sym_format(l, r)
+        if any(_type(a) in _SYMCLASS for a in tup):
+            return symx_fmt(l, r)
+    return l % r
+
+
+def symx_sjoin(sep, seq):
+    seq = list(seq)
+    if _isinstance(sep, str) and not any(_isinstance(x, SymStr) for x in seq):
+        return sep.join(seq)
+    return str_join(sep, seq)
+
+
 _PROXY_NAMES = ("SymInt", "SymBytes", "SymBool", "ShByteArray", "SymFloat", "SymStr", "_LazyRange")
+
 
 
 def symx_exc(e):
@@ -246,7 +289,7 @@ def symx_exc(e):
             raise EngineGap("proxy leaked into C code: %s" % s)
 
 
-_REPR = {"SymInt": 1, "SymBool": True, "SymBytes": b"a", "ShByteArray": bytearray(b"a"), "SymFloat": 1.5, "int": 1, "bool": True,
+_REPR = {"SymStr": "a", "SymInt": 1, "SymBool": True, "SymBytes": b"a", "ShByteArray": bytearray(b"a"), "SymFloat": 1.5, "int": 1, "bool": True,
          "bytes": b"a", "float": 1.5, "str": "a", "NoneType": None, "list": [1], "tuple": (1,), "dict": {}, "bytearray": bytearray(b"a")}
 _BINOPS = {"+": "__add__", "-": "__sub__", "*": "__mul__", "/": "__truediv__", "//": "__floordiv__", "%": "__mod__",
            "**": "__pow__", "** or pow()": "__pow__", "^": "__xor__", "&": "__and__", "|": "__or__", "<<": "__lshift__", ">>": "__rshift__",
@@ -654,9 +697,14 @@ class ShBinascii(types.ModuleType):
         return _real_binascii.unhexlify(data)
 
 
-_SHIM2REAL.update({ShInt: int, ShBool: bool, ShBytes: bytes, ShByteArray: bytearray})
-_REAL2SHIM = {int: ShInt, bool: ShBool, bytes: ShBytes, bytearray: ShByteArray,
-              SymInt: ShInt, SymBool: ShBool, SymBytes: ShBytes, SymFloat: float}
+for _shim in (ShInt, ShBool, ShBytes, ShStr):
+    for _dn in ("__repr__", "__str__", "__hash__", "__eq__", "__ne__", "__lt__", "__le__", "__gt__", "__ge__", "__len__", "__add__", "__mul__", "__mod__",
+                "__contains__", "__getitem__", "__iter__", "__format__", "__bool__", "__index__", "__int__", "__and__", "__or__", "__xor__", "__sub__", "__neg__"):
+        if hasattr(_shim._real, _dn) and _dn not in vars(_shim):
+            setattr(_shim, _dn, staticmethod(getattr(_shim._real, _dn)))
+_SHIM2REAL.update({ShInt: int, ShBool: bool, ShBytes: bytes, ShByteArray: bytearray, ShStr: str})
+_REAL2SHIM = {int: ShInt, bool: ShBool, bytes: ShBytes, bytearray: ShByteArray, str: ShStr,
+              SymInt: ShInt, SymBool: ShBool, SymBytes: ShBytes, SymFloat: float, SymStr: ShStr}
 
 
 # ShByteArray must also answer isinstance() for real bytearrays (the name `bytearray` in the code
@@ -672,9 +720,9 @@ _REAL2SHIM[bytearray] = _BAProxy
 _REAL2SHIM[_BAProxy] = _BAProxy
 _REAL2SHIM[ShByteArray] = _BAProxy
 
-INJECT = dict(isinstance=sh_isinstance, int=ShInt, bool=ShBool, bytes=ShBytes, bytearray=_BAProxy,
+INJECT = dict(isinstance=sh_isinstance, int=ShInt, bool=ShBool, bytes=ShBytes, bytearray=_BAProxy, str=ShStr,
               type=sh_type, range=sh_range)
-HOOKS = dict(__symx_b__=CBytes, __symx_fmt__=symx_fmt, __symx_exc__=symx_exc)
+HOOKS = dict(__symx_b__=CBytes, __symx_fmt__=symx_fmt, __symx_exc__=symx_exc, __symx_mod__=symx_mod, __symx_sjoin__=symx_sjoin)
 
 
 # ---------------------------------------------------------------------------------------------
@@ -689,6 +737,16 @@ class Instrument(ast.NodeTransformer):
         self.generic_visit(node)
         if isinstance(node.op, ast.Mod) and isinstance(node.left, ast.Constant) and isinstance(node.left.value, str):
             return ast.copy_location(ast.Call(func=ast.Name(id="__symx_fmt__", ctx=ast.Load()), args=[node.left, node.right], keywords=[]), node)
+        if isinstance(node.op, ast.Mod) and not (isinstance(node.left, ast.Constant) and isinstance(node.left.value, (int, float))):
+            return ast.copy_location(ast.Call(func=ast.Name(id="__symx_mod__", ctx=ast.Load()), args=[node.left, node.right], keywords=[]), node)
+        return node
+
+    def visit_Call(self, node):
+        self.generic_visit(node)
+        f = node.func
+        if (isinstance(f, ast.Attribute) and f.attr == "join" and isinstance(f.value, ast.Constant) and isinstance(f.value.value, str)
+                and len(node.args) == 1 and not node.keywords):
+            return ast.copy_location(ast.Call(func=ast.Name(id="__symx_sjoin__", ctx=ast.Load()), args=[f.value, node.args[0]], keywords=[]), node)
         return node
 
     def visit_ExceptHandler(self, node):
